@@ -14,7 +14,7 @@ T=$(/venv/bin/python -m pytest -q -p no:cacheprovider 2>&1 | tail -1)
 P1=$(PYTHONPATH=$W timeout 300 /venv/bin/python _demo.py 2>&1 | tail -1; echo "rc=${PIPESTATUS[0]}")
 echo "== $NAME: demo without patch rc=$P0 | tests with patch: $T | demo with patch: $P1"
 rm -f $W/_demo.py
-cd /verif
+cd ${VERIF_ROOT:-/verif}
 for c in "$@"; do
   OUT=$(BOBOCEP_REPO=$W ./check $c 2>&1 | grep -v '^KNOWN' | tail -2 | cut -c1-260)
   echo "-- $c: $OUT"
@@ -25,6 +25,6 @@ for c in "$@"; do
 done
 cd $W && git reset -q --hard
 # regenerate the Gen/ files from the real tree again
-cd /verif && PYTHONPATH=/repo:/verif /venv/bin/python -c "
+cd ${VERIF_ROOT:-/verif} && PYTHONPATH=/repo:${VERIF_ROOT:-/verif} /venv/bin/python -c "
 from harness import core; import pkgutil, translate
 core.run_translators([m.name for m in pkgutil.iter_modules(translate.__path__) if m.name not in ('pyexpr','normalize')])" >/dev/null 2>&1
